@@ -1836,6 +1836,9 @@ class ForAll(QuantifiedConditional):
             for v in self.condition._unique_variables_.difference(
                 self.left._unique_variables_
             )
+            # the results of predicates / symbolic functions are computed from the other variables for every value of the
+            # quantified variable; they are not part of a candidate solution
+            if not v.value._should_be_instantiated_
         ]
 
     def _evaluate__(
